@@ -317,3 +317,48 @@ def expanded_square_distance(term):
                 break
     # report maximal terms only
     return [t for t in out if not any(t != o and t in o for o in out)]
+
+
+# ------------------------------------------------------------------ ~ applied to a comparison that may be a plain Python bool
+NUMPY_SCALAR_FUNCS = {"sqrt", "exp", "log", "log1p", "expm1", "sin", "cos", "tanh", "erf", "erfc", "erfcx", "absolute", "fabs", "square",
+                      "mean", "std", "var", "sum", "prod", "max", "min", "amax", "amin", "median", "float64", "float32", "array", "asarray",
+                      "dot", "power", "hypot", "maximum", "minimum", "nanmax", "nanmin", "nanmean", "ptp", "percentile"}
+
+
+def invert_of_python_bool(fn, rz=None, numpy_names=None):
+    """`~c` is logical negation only for numpy booleans; for a plain Python bool it is integer complement (~True == -2, ~False == -1,
+    both truthy - the branch is always taken).  A comparison yields a numpy bool only if one of its operands is a numpy scalar
+    / array.  Reports every `~(comparison ...)` in which some comparison has no operand that is certainly a numpy value (the
+    result of a numpy function or of an array method): whether the test works then depends on how the numbers compared were
+    produced (a value restored with float(...) from a file is a Python float).  Returns [(lineno, text, why)]."""
+    out = []
+
+    def certainly_numpy(e):
+        for n in ast.walk(e):
+            if isinstance(n, ast.Call):
+                f = n.func
+                nm = f.attr if isinstance(f, ast.Attribute) else f.id if isinstance(f, ast.Name) else None
+                if nm in NUMPY_SCALAR_FUNCS and (numpy_names is None or isinstance(f, ast.Attribute) or nm in numpy_names):
+                    return True
+        return False
+    for n in ast.walk(fn):
+        if not (isinstance(n, ast.UnaryOp) and isinstance(n.op, ast.Invert)):
+            continue
+        op = n.operand
+        comps = [c for c in ast.walk(op) if isinstance(c, ast.Compare)]
+        if not comps or not isinstance(op, (ast.Compare, ast.BoolOp)):
+            continue
+        st = rz.stmt_of(n) if rz is not None else None
+        bad = []
+        for c in comps:
+            sides = [c.left] + list(c.comparators)
+            for a, b in zip(sides, sides[1:]):
+                ta = rz.term(a, st) if rz is not None and st is not None else a
+                tb = rz.term(b, st) if rz is not None and st is not None else b
+                if not (certainly_numpy(ta) or certainly_numpy(tb)):
+                    bad.append(f"{ast.unparse(a)} .. {ast.unparse(b)}")
+        if bad:
+            out.append((n.lineno, ast.unparse(n)[:120],
+                        f"comparison `{bad[0][:100]}` has no operand that is certainly a numpy value: for plain Python numbers the result is a "
+                        f"Python bool and `~` makes it -1 / -2, both true"))
+    return out
